@@ -257,9 +257,13 @@ def gen_history(cfg, ref, rng):
             a = rng.randrange(1, max(2, ref['delivery_points']))
             b = a + (rng.randrange(1, 12) if rng.random() < 0.7 else rng.randrange(1, max(2, ref['delivery_points'])))
             faults.append({'kind': 'sigint', 'at': [a, b]})
-        else:
+        elif r < 0.93:
             at = rng.randrange(0, ops_total) if s == 0 else rng.randrange(0, ops_per_save + 2)
             faults.append({'kind': 'oserror', 'at_op': at, 'errno': rng.choice([28, 5])})
+        else:
+            # the disk fills up: a short write (a prefix still fits), then ENOSPC on every further write
+            at = rng.randrange(0, ops_total) if s == 0 else rng.randrange(0, ops_per_save + 2)
+            faults.append({'kind': 'diskfull', 'at_op': at, 'frac': rng.choice([0.0, 0.3, 0.9, 0.999])})
     # how the user resumes after the s-th crash: by file name (usual) or by loading the file himself
     apis = [('checkpoint_results' if rng.random() < 0.25 else 'filename') for _ in range(n_faults + 1)]
     return {'cfg': cfg, 'faults': faults, 'clock_seed': rng.getrandbits(32), 'resume_api': apis}
@@ -401,6 +405,9 @@ def run_history(plan, ref_results, pre_bytes, stats):
             elif fault['kind'] == 'oserror' and world.fs.errors_fired:
                 fired = 'oserror'
                 world.fs.errors_fired = []
+            elif fault['kind'] == 'diskfull' and world.fs.errors_fired:
+                fired = 'diskfull'
+                world.fs.errors_fired = []
             elif fault['kind'] == 'sigint' and world.sigints_delivered:
                 fired = 'sigint%d' % world.sigints_delivered
                 world.sigints_delivered = 0
@@ -412,6 +419,11 @@ def run_history(plan, ref_results, pre_bytes, stats):
             stats['faults_fired'][fired] += 1
         trace.append([seg, start[0], fault, fired, o['outcome'], o['error'] if isinstance(o['error'], (str, type(None)))
                       else o['error']['type']])
+        if world.violations:
+            v = world.violations[0]
+            return {'invariant': v['invariant'], 'detail': v['detail'],
+                    'facts': {'family': cfg['family'], 'ext': cfg['ext'], 'segment': seg,
+                              'fault_kind': fault['kind'] if fault else None, 'fault_fired': fired}, 'trace': trace}
         n_done = ev.n_ack()
         facts = {'family': cfg['family'], 'ext': cfg['ext'], 'segment': seg, 'start': start[0],
                  'fault_kind': fault['kind'] if fault else None, 'fault_fired': fired, 'outcome': o['outcome'],
